@@ -52,6 +52,10 @@ class ConclusionSelector(LogicalBinaryOperator, ABC):
         required_output = {
             k: v for k, v in output.bindings.items() if k in required_vars
         }
+        # the same bindings may trigger the conclusions of several branches (e.g. a next_rule over the same variables)
+        required_output[ConclusionSelector] = tuple(
+            sorted(id(conclusion) for conclusion in conclusions)
+        )
 
         if not self.concluded_before[not self._is_false_].check(required_output):
             self._conclusion_.update(conclusions)
